@@ -152,6 +152,10 @@ pub struct GenCtx {
     pub w_env: u32,
     pub w_raw: u32,
     pub w_value: u32,
+    /// how many times CALLCODE is entered into the draw of call kinds (1 = one in eight)
+    pub w_callcode: u32,
+    /// values read by snippets may flow on into storage / transient storage / memory
+    pub observe: bool,
     pub guard_pct: u64,
     /// upper bound for the gas argument of generated calls (None: may forward all gas)
     pub max_call_gas: Option<u64>,
@@ -179,6 +183,8 @@ impl GenCtx {
             w_env: 2,
             w_raw: 1,
             w_value: 30,
+            w_callcode: 1,
+            observe: true,
             guard_pct: 50,
             max_call_gas: None,
         }
@@ -294,6 +300,30 @@ fn has(spec: SpecId, s: SpecId) -> bool {
 }
 
 /// One unguarded snippet. Returns true if the snippet terminates execution.
+/// What happens to a value a snippet has read (a storage or transient slot, a balance, a
+/// code size, a memory word, a block hash): mostly dropped, but often written somewhere a
+/// later observer can see it, so that a wrong value read anywhere becomes a wrong state.
+fn sink(rng: &mut Rng, ctx: &GenCtx, a: &mut Asm) {
+    if !ctx.observe {
+        a.op(POP);
+        return;
+    }
+    match rng.below(10) {
+        0 | 1 | 2 => {
+            a.push(*rng.pick(&ctx.slots)).op(SSTORE);
+        }
+        3 if has(ctx.spec, SpecId::CANCUN) => {
+            a.push(*rng.pick(&ctx.slots)).op(TSTORE);
+        }
+        4 => {
+            a.push_u(small_mem_off(rng)).op(MSTORE);
+        }
+        _ => {
+            a.op(POP);
+        }
+    }
+}
+
 pub fn gen_snippet(rng: &mut Rng, ctx: &GenCtx, a: &mut Asm, depth: u32) -> bool {
     let spec = ctx.spec;
     let w = [
@@ -317,14 +347,16 @@ pub fn gen_snippet(rng: &mut Rng, ctx: &GenCtx, a: &mut Asm, depth: u32) -> bool
             if rng.chance(2, 3) {
                 a.push_u(rng.below(4)).push(k).op(SSTORE);
             } else {
-                a.push(k).op(SLOAD).op(POP);
+                a.push(k).op(SLOAD);
+                sink(rng, ctx, a);
             }
         }
         1 => {
             if rng.chance(2, 3) {
                 a.push_u(rng.below(3)).push(k).op(TSTORE);
             } else {
-                a.push(k).op(TLOAD).op(POP);
+                a.push(k).op(TLOAD);
+                sink(rng, ctx, a);
             }
         }
         2 => {
@@ -336,16 +368,20 @@ pub fn gen_snippet(rng: &mut Rng, ctx: &GenCtx, a: &mut Asm, depth: u32) -> bool
         }
         3 => match rng.below(5) {
             0 => {
-                a.push_addr(addr).op(BALANCE).op(POP);
+                a.push_addr(addr).op(BALANCE);
+                sink(rng, ctx, a);
             }
             1 => {
-                a.push_addr(addr).op(EXTCODESIZE).op(POP);
+                a.push_addr(addr).op(EXTCODESIZE);
+                sink(rng, ctx, a);
             }
             2 => {
                 if has(spec, SpecId::CONSTANTINOPLE) {
-                    a.push_addr(addr).op(EXTCODEHASH).op(POP);
+                    a.push_addr(addr).op(EXTCODEHASH);
+                    sink(rng, ctx, a);
                 } else {
-                    a.push_addr(addr).op(EXTCODESIZE).op(POP);
+                    a.push_addr(addr).op(EXTCODESIZE);
+                    sink(rng, ctx, a);
                 }
             }
             3 => {
@@ -353,9 +389,11 @@ pub fn gen_snippet(rng: &mut Rng, ctx: &GenCtx, a: &mut Asm, depth: u32) -> bool
             }
             _ => {
                 if has(spec, SpecId::ISTANBUL) {
-                    a.op(SELFBALANCE).op(POP);
+                    a.op(SELFBALANCE);
+                    sink(rng, ctx, a);
                 } else {
-                    a.op(ADDRESS).op(BALANCE).op(POP);
+                    a.op(ADDRESS).op(BALANCE);
+                    sink(rng, ctx, a);
                 }
             }
         },
@@ -364,19 +402,22 @@ pub fn gen_snippet(rng: &mut Rng, ctx: &GenCtx, a: &mut Asm, depth: u32) -> bool
                 a.push(U256::from(rng.next_u64())).push_u(small_mem_off(rng)).op(MSTORE);
             }
             1 => {
-                a.push_u(small_mem_off(rng)).op(MLOAD).op(POP);
+                a.push_u(small_mem_off(rng)).op(MLOAD);
+                sink(rng, ctx, a);
             }
             2 => {
                 a.push_u(rng.below(256)).push_u(small_mem_off(rng)).op(MSTORE8);
             }
             3 => {
-                a.op(MSIZE).op(POP);
+                a.op(MSIZE);
+                sink(rng, ctx, a);
             }
             4 => {
                 if has(spec, SpecId::CANCUN) {
                     a.push_u(small_len(rng)).push_u(small_mem_off(rng)).push_u(small_mem_off(rng)).op(MCOPY);
                 } else {
-                    a.push_u(small_len(rng)).push_u(small_mem_off(rng)).op(KECCAK256).op(POP);
+                    a.push_u(small_len(rng)).push_u(small_mem_off(rng)).op(KECCAK256);
+                    sink(rng, ctx, a);
                 }
             }
             _ => {
@@ -384,13 +425,17 @@ pub fn gen_snippet(rng: &mut Rng, ctx: &GenCtx, a: &mut Asm, depth: u32) -> bool
                     // copy (a prefix of) the return data; may halt when out of bounds
                     a.op(RETURNDATASIZE).push_u(0).push_u(small_mem_off(rng)).op(RETURNDATACOPY);
                 } else {
-                    a.op(MSIZE).op(POP);
+                    a.op(MSIZE);
+                    sink(rng, ctx, a);
                 }
             }
         },
         5 => {
             let target = *rng.pick(&ctx.callees);
             let mut ops = vec![CALL, CALL, CALL, CALLCODE];
+            for _ in 1..ctx.w_callcode {
+                ops.push(CALLCODE);
+            }
             if has(spec, SpecId::HOMESTEAD) {
                 ops.push(DELEGATECALL);
                 ops.push(DELEGATECALL);
@@ -407,17 +452,17 @@ pub fn gen_snippet(rng: &mut Rng, ctx: &GenCtx, a: &mut Asm, depth: u32) -> bool
                 2 => GasArg::Const(0),
                 _ => GasArg::All,
             };
-            emit_call(
-                a,
-                opcode,
-                gas,
-                target,
-                call_value(rng, ctx),
-                1 + rng.below(3),
-                small_mem_off(rng),
-                small_len(rng),
-                128 + 32 * rng.below(4),
-            );
+            let value = call_value(rng, ctx);
+            let shift = 1 + rng.below(3);
+            let out_off = small_mem_off(rng);
+            let out_len = small_len(rng);
+            emit_call(a, opcode, gas, target, value, shift, out_off, out_len, 128 + 32 * rng.below(4));
+            // what the callee returned into the window (and what the call left of the memory
+            // around it) sometimes flows on into state
+            if rng.chance(1, 4) {
+                a.push_u(out_off).op(MLOAD);
+                sink(rng, ctx, a);
+            }
         }
         6 => {
             let ic = rng.pick(&ctx.initcodes).clone();
@@ -473,10 +518,12 @@ pub fn gen_snippet(rng: &mut Rng, ctx: &GenCtx, a: &mut Asm, depth: u32) -> bool
         }
         10 => match rng.below(6) {
             0 => {
-                a.push_u(rng.below(600)).op(BLOCKHASH).op(POP);
+                a.push_u(rng.below(600)).op(BLOCKHASH);
+                sink(rng, ctx, a);
             }
             1 => {
-                a.op(COINBASE).op(BALANCE).op(POP);
+                a.op(COINBASE).op(BALANCE);
+                sink(rng, ctx, a);
             }
             2 => {
                 a.op(ORIGIN).op(CALLER).op(CALLVALUE).op(GASPRICE).op(NUMBER).op(POP).op(POP).op(POP).op(POP).op(POP);
